@@ -25,6 +25,9 @@ def main():
     ap.add_argument("--desc", default="")
     ap.add_argument("--tier", default="quick")
     ap.add_argument("--skip-confirm", action="store_true")
+    ap.add_argument("--no-checks", action="store_true", help="only confirm and store the seed; run the checks later with --skip-confirm")
+    ap.add_argument("--features", default="", help="cargo feature flags for the demo, e.g. '--features ram_bundle'")
+    ap.add_argument("--rustflags", default="", help="RUSTFLAGS for the demo, e.g. '--cfg sourcemap_verif'")
     a = ap.parse_args()
     wt = a.worktree
     dst = os.path.join(VERIF, "seeded", a.seed)
@@ -32,20 +35,21 @@ def main():
     ran = []
     meta_path = os.path.join(dst, "meta.json")
     meta = json.load(open(meta_path)) if os.path.exists(meta_path) else {}
+    demo_cmd = ("RUSTFLAGS='%s' " % a.rustflags if a.rustflags else "") + "cargo test --offline %s --test mut_demo" % a.features + (" --target-dir target/verif" if a.rustflags else "")
     if not a.skip_confirm:
         # the patch is the uncommitted src change of the worktree
         rc, diff = sh("git diff -- src", cwd=wt)
         assert diff.strip(), "no uncommitted src change in " + wt
         open(os.path.join(dst, "patch.diff"), "w").write(diff)
         shutil.copy(os.path.join(wt, "tests", "mut_demo.rs"), os.path.join(dst, "mut_demo.rs"))
-        rc1, o1 = sh("cargo test --offline --test mut_demo 2>&1 | tail -15", cwd=wt)
+        rc1, o1 = sh(demo_cmd + " 2>&1 | tail -15", cwd=wt)
         with_fail = "FAILED" in o1 or "failed" in o1 and "0 failed" not in o1
-        ran.append({"cmd": "cargo test --offline --test mut_demo  (with the change)", "failed_as_expected": with_fail, "tail": o1[-600:]})
-        sh("git stash", cwd=wt)
-        rc2, o2 = sh("cargo test --offline --test mut_demo 2>&1 | tail -8", cwd=wt)
-        sh("git stash pop", cwd=wt)
+        ran.append({"cmd": demo_cmd + "  (with the change)", "failed_as_expected": with_fail, "tail": o1[-600:]})
+        sh("git apply -R %s" % os.path.join(dst, "patch.diff"), cwd=wt)
+        rc2, o2 = sh(demo_cmd + " 2>&1 | tail -8", cwd=wt)
+        sh("git apply %s" % os.path.join(dst, "patch.diff"), cwd=wt)
         without_ok = "test result: ok" in o2
-        ran.append({"cmd": "git stash; cargo test --offline --test mut_demo; git stash pop  (without the change)", "passed_as_expected": without_ok, "tail": o2[-300:]})
+        ran.append({"cmd": "git apply -R patch.diff; cargo test --offline --test mut_demo; git apply patch.diff  (without the change)", "passed_as_expected": without_ok, "tail": o2[-300:]})
         sh("mv tests/mut_demo.rs /tmp/mut_demo_%s.rs" % a.seed, cwd=wt)
         rc3, o3 = sh("cargo test --offline --workspace 2>&1 | grep -E '^test result|FAILED|panicked' ", cwd=wt)
         sh("mv /tmp/mut_demo_%s.rs tests/mut_demo.rs" % a.seed, cwd=wt)
@@ -54,6 +58,16 @@ def main():
         ran.append({"cmd": "cargo test --offline --workspace  (with the change, demo moved away)", "suite_passes": suite_ok, "tests_passed": npass})
         meta.update({"confirmed": bool(with_fail and without_ok and suite_ok)})
         print("confirm: demo fails with change=%s, passes without=%s, suite passes with change=%s (%d tests)" % (with_fail, without_ok, suite_ok, npass))
+    if a.no_checks:
+        meta.update({"seed": a.seed, "breaks_property": a.prop})
+        if a.desc:
+            meta["description"] = a.desc
+        if a.needs:
+            meta["needs_to_manifest"] = a.needs
+        if ran:
+            meta["what_was_run"] = ran
+        json.dump(meta, open(meta_path, "w"), indent=1)
+        return
     # run our checks against it
     checks = (a.checks or a.prop).split(",")
     patch = os.path.join(dst, "patch.diff")
